@@ -154,6 +154,11 @@ class Exec(X.PyExec):
 
 
 def counter_method(ex, name, selfv, args, kwargs, st):
+    if name == "counter.items":
+        pairs = st.objs[selfv.oid]["fields"].get("$pairs")
+        if pairs is None:
+            raise Unsupported("items() of a Counter built by stores")
+        return [("val", list(pairs), st)]
     if name == "counter.most_common":
         st.effects.append(("most_common", selfv.oid, args[0] if args else None))
         r = Opaque("most_common")
@@ -164,10 +169,41 @@ def counter_method(ex, name, selfv, args, kwargs, st):
 
 
 def _counter(ex, st, f, args, kwargs):
-    if args or kwargs:
-        raise Unsupported("Counter(...) with arguments")
-    ref = st.new_obj("$counter", {"$entries": ()})
-    return [("val", ref, st)]
+    if kwargs or len(args) > 1:
+        raise Unsupported("Counter(...) with keyword arguments")
+    if not args:
+        ref = st.new_obj("$counter", {"$entries": ()})
+        return [("val", ref, st)]
+    # Counter(iterable of byte keys): occurrences are collapsed per distinct key (first-seen order);
+    # whether two symbolic keys are equal is explored both ways
+    items = ex.iter_items(args[0], st)
+    states = [(st, [])]
+    for it in items:
+        if not (isinstance(it, Sym) and it.dtype == "bytes"):
+            raise Unsupported("Counter over non-bytes items")
+        nxt = []
+        for s0, ent in states:
+            pending = [(s0, 0)]
+            while pending:
+                s1, i = pending.pop()
+                if i == len(ent):
+                    nxt.append((s1, ent + [(it, 1)]))
+                    continue
+                k, c = ent[i]
+                if z3.eq(k.t, it.t):
+                    nxt.append((s1, ent[:i] + [(k, c + 1)] + ent[i + 1 :]))
+                    continue
+                for cond, s2 in ex.branch(Sym(k.t == it.t, "bool"), s1):
+                    if cond:
+                        nxt.append((s2, ent[:i] + [(k, c + 1)] + ent[i + 1 :]))
+                    else:
+                        pending.append((s2, i + 1))
+        states = nxt
+    out = []
+    for s1, ent in states:
+        ref = s1.new_obj("$counter", {"$entries": tuple((k.t, z3.IntVal(c)) for k, c in ent), "$pairs": [(k, Const(c)) for k, c in ent]})
+        out.append(("val", ref, s1))
+    return out
 
 
 def counter_lookup(entries, key_t):
